@@ -231,7 +231,24 @@ def ob_equivocation(run, oid):
     for (sbb, ssp) in stores:
         ent = [c.bb for c in b.calls() if c.name.endswith("BTreeMap::entry") and K.mentions_field(b.operand_term(c.args[0]), "commitment_cache", "BlockData")]
         o.check(bool(ent) and all(b.dominates(e, sbb) for e in ent), "BlockData::add_shred|store|after-cache-check", "the commitment check dominates the storage of the shred", ssp)
-        o.check(not any(b.can_reach(ebb, sbb) for (ebb, _sp) in eqs), "BlockData::add_shred|store|not-after-equivocation", "nothing is stored on an Equivocation path", ssp)
+        o.check(not any(sbb in _reach_after_err(prog, b, ebb) for (ebb, _sp) in eqs), "BlockData::add_shred|store|not-after-equivocation", "nothing is stored on an Equivocation path", ssp)
+        # exactness: between the cache lookup and the store, every path either fills a vacant cache entry with this shred's commitment or
+        # passes the equality of the cached commitment with this shred's WHOLE commitment (slot, slice index, last flag, root)
+        es = b.edges()
+        removed_nodes = set(c.bb for c in b.calls() if c.name.endswith("VacantEntry::insert") and K.mentions_field(b.operand_term(c.args[0]), "commitment_cache", "BlockData")
+                            and K.mentions_call(b.operand_term(c.args[1]), "ValidatedShred::commitment"))
+        removed_edges = []
+        for (s_, dterm, dty) in b.switches():
+            for v, atoms in G.switch_atoms(b, s_, prog).items():
+                for a in atoms:
+                    if a[0] == "eq" and a[2] is True and any(K.mentions_field(x, "commitment_cache", "BlockData") and K.mentions_call(x, "OccupiedEntry::get") for x in a[1]) and any(
+                            K.peel(x)[0] == "call" and K.peel(x)[1].endswith("ValidatedShred::commitment") for x in a[1]):
+                        removed_edges += [i for i, e in enumerate(es) if e[0] == s_ and e[2] == ("sw", v)]
+        removed_edges += [i for i, e in enumerate(es) if e[1] in removed_nodes]
+        for e0 in ent:
+            r_ = b.reachable(e0, removed_edges=removed_edges)
+            o.check(bool(removed_nodes) and bool(removed_edges) and sbb not in r_, "BlockData::add_shred|store|only-identical-commitment",
+                    "a shred is stored only if its whole commitment equals the cached one, or it is the first of its slice (fills the cache)", ssp)
     # the shred is stored at the array position named by its own (authenticated) shred index
     for (bb, i, dst, rv, sp) in b.assignments():
         t = b.rvalue_term(rv)
@@ -352,6 +369,7 @@ def ob_consumed_authenticated(run, oid):
 
 
 def check(run):
+    ob_cache_argument(run, "O12.7")
     ob_verdict_table(run, "O12.1")
     ob_commitment_coverage(run, "O12.2")
     ob_key_provenance(run, "O12.3")
@@ -372,3 +390,64 @@ def witness(run, oid):
         return
     for name, ok, detail in W.expect(['ValidatedShredLiteralFails', 'ValidatedShredLiteralTwin', 'NewValidatedPrivateFails'], res):
         o.check(ok, "witness|" + name, "doctest %s behaves as expected (%s)" % (name, "must not compile" if name.endswith("Fails") else "compiles"), "witness/src/lib.rs", {"detail": detail})
+
+
+def _reach_after_err(prog, b, ebb):
+    """blocks reachable from the block that builds an error value, knowing that a `?` applied to that very error value takes
+    its Break edge (Try::branch(Err(e)) is Break): the Continue edges of such switches are not followed"""
+    es = b.edges()
+    # locals that hold the error built at ebb: the Result::Err aggregate fed by it (same block or goto successors)
+    err_locals = set()
+    frontier = [ebb]
+    seen = set()
+    while frontier:
+        x = frontier.pop()
+        if x in seen or len(seen) > 6:
+            continue
+        seen.add(x)
+        for st in b.blocks[x]["stmts"]:
+            if st["k"] == "assign" and st["rv"]["k"] == "agg" and str(st["rv"].get("adt", "")).endswith("result::Result") and st["rv"].get("variant") == "Err" and not st["dst"]["p"]:
+                err_locals.add(st["dst"]["l"])
+        t = b.blocks[x]["term"]
+        if t["k"] == "goto":
+            frontier.append(t["t"])
+    removed = []
+    if err_locals:
+        for c in b.calls():
+            if c.name.endswith("Try>::branch") or c.name.endswith("Try::branch"):
+                a0 = c.raw["args"][0]
+                pl = a0.get("m") or a0.get("c")
+                if pl and not pl["p"] and pl["l"] in err_locals:
+                    res = c.dst["l"]
+                    for (s_, dterm, dty) in b.switches():
+                        sa = G.switch_atoms(b, s_, prog)
+                        for v, atoms in sa.items():
+                            for a in atoms:
+                                if a[0] == "variant" and a[1][1] == frozenset(["Continue"]) and K.mentions(a[1][0], lambda x: x[0] == "call" and len(x) > 3 and x[3] == c.bb):
+                                    removed += [i for i, e in enumerate(es) if e[0] == s_ and e[2] == ("sw", v)]
+    return b.reachable(ebb, removed_edges=removed)
+
+
+def ob_cache_argument(run, oid):
+    """who may hand ValidatedShred::try_new a 'cached commitment' (which skips the signature check on a match)"""
+    prog = run.program("lib")
+    o = run.ob(oid, "the commitment handed to ValidatedShred::try_new as 'cached' is None or the blockstore's cached commitment for that slot/slice - never one built from the shred itself",
+               "a cached commitment shortcuts signature verification when it equals the shred's own commitment: one derived from the shred always matches, so any unsigned shred "
+               "with a consistent Merkle proof would be accepted as the leader's", floor=2)
+    sites = [c for d, bd in prog.bodies.items() if not bd.generated for c in bd.calls() if c.name == VS + "::try_new"]
+    if len(sites) < 2:
+        o.missing("two call sites of ValidatedShred::try_new (dissemination, repair)")
+    for c, key in K.ordinal_keys(sites, lambda c: "%s|ValidatedShred::try_new" % fshort(c.body.defpath)):
+        b = c.body
+        t = b.operand_term(c.args[1])
+        pv = b.provenance(t, depth=8)
+        is_none = K.peel(t)[0] == "agg" and K.peel(t)[2] == "None" and not pv["calls"]
+        from_store = any(x.endswith("Blockstore::cached_commitment") for x in pv["calls"])
+        built = any(x.endswith("SliceCommitment::new") or x.endswith("ValidatedShred::commitment") for x in pv["calls"]) or any(str(a[0]).endswith("SliceCommitment") for a in pv["aggs"])
+        shred_arg = b.operand_term(c.args[0])
+        o.check((is_none or from_store) and not built, key + "|cached-argument", "cached commitment is None, or read from the blockstore's cache (not constructed here)", c.span,
+                {"term": mir.show(t)[:160]})
+        if from_store:
+            cc = [x for x in mir.walk(t) if isinstance(x, tuple) and x and x[0] == "call" and x[1].endswith("Blockstore::cached_commitment")]
+            okk = bool(cc) and K.mentions_field(cc[0][2][1], "slot", "SliceHeader") and K.mentions_field(cc[0][2][2], "slice_index", "SliceHeader")
+            o.check(okk, key + "|cache-key", "looked up under the shred's own (slot, slice index)", c.span)
